@@ -402,6 +402,50 @@ PROPS["C20"] = {
                         "feature with-sqlite-history (off by default) — the harness is built with it"],
     }
 
+PROPS["C02"] = {
+        "module": "Rl.Props.C02",
+        "targets": [{"name": "render", "gen": "render", "header_tokens": 10}],
+        # 8 shards also in the thorough tier: under heavier load the pty key delivery races with the final hang-up
+        "shards": {"quick": 8, "thorough": 8},
+        "rule": "render: the real Editor::readline on a pty of width 2..16, 20, 24, 31, 40, 80 (thorough: every width 2..40 and 80); "
+                "prompts empty / ASCII / wide / non-ASCII / longer than the width / with a line break; emacs key scripts weighted "
+                "towards the right margin (runs of one character, wide characters, combining marks, line breaks via C-v C-j, cursor "
+                "motion by char/word/line/buffer, kills, yanks, transpositions, case changes, undo, C-l, history recall of multi-line "
+                "entries, numeric arguments, hint completion) and the vi key scripts of target ed (minus incremental search); initial "
+                "text; scripted hinter (short, wide and wrapping hints), bracket highlighter, circular completion; one key at a time and "
+                "type-ahead. The bytes written to the terminal are cut at every Event::Any callback and fed to the Lean VT100 emulator. "
+                "Oracle (on the implementation): at every callback the screen is exactly prompt+line+hint rendered from scratch, the "
+                "cursor is on the insertion-point cell, no wrap is pending; on return the text (without hint) is shown and the cursor is "
+                "at column 0 below it. Correspondence: the editor model's render log replayed through the model renderer gives the same "
+                "callback states, screens, cursors and outcome (screens are compared, not escape-sequence spelling). "
+                "distinct = hash of the request; non-trivial = at least one callback.",
+        "trivial_impl_regex": r"=> .*",
+        "exhaustive": {"quick": False, "thorough": False},
+        "trusted_base": [
+            "the Lean terminal emulator (Rl/Term.lean) is the independent VT100-style terminal of the property: deferred wrap, early wrap "
+            "of wide characters, zero-width characters join the previous cell, LF acts as CR LF (ONLCR stays on); no scrolling (unbounded rows)",
+            "character widths are unicode-width's (charinfo header); a written space and a blank cell are the same to the observer; SGR is ignored",
+            "the pty harness cuts the output where the Event::Any handler runs (marker written from inside the handler)",
+            "validators' messages, list completion, incremental-search prompts, the external printer, tabs and control characters in the "
+            "text are outside this check (not in the property's quantifier, or other properties)"],
+        "unproved": ["C02_full_refresh_statement", "C02_move_cursor_statement", "C02_fast_path_statement",
+                     "C02_history_statement", "C02_final_statement"],
+        "level_text": "Lean theorems, for every lawful segmenter, width table and terminal width >= 2, over prompts/lines/hints made of "
+                      "line breaks and printable clusters of width 0/1/2: the grapheme loop of calculate_position simulates the cursor "
+                      "of a VT100-style terminal (deferred wrap, early wrap of wide characters, zero-width joins); positions computed "
+                      "piecewise add up; the cell where the renderer puts the cursor is the insertion point of the declarative spec; "
+                      "the renderer's own newline is written exactly when the terminal has a wrap pending; the fast path of edit_insert "
+                      "keeps believed and real cursor equal with no wrap pending; the final newline leaves the cursor at column 0 below "
+                      "the text. The screen-content statements (full refresh, cursor-only move, fast path = full refresh, composition "
+                      "over histories) are stated, not yet proved; they are covered by the differential check: the real Editor::readline "
+                      "on a pty at widths 2..40 and 80, its output interpreted by the Lean terminal emulator at every Event::Any "
+                      "callback and compared with the from-scratch rendering (oracle) and with the model renderer's screen.",
+        "level_note": "Trusted: Lean kernel; the terminal emulator Rl/Term.lean as the property's VT100-style terminal; unicode-width "
+                      "tables via charinfo; pty harness (output cut at the callbacks by a marker written from the handler). Partial claim: "
+                      "see unproved statements. Reading decision: a hint the editor holds may be shown or not; a stale or partial hint fails.",
+        "assumptions": ["cols >= 2", "no TAB / control character inside prompt, line or hint"],
+    }
+
 # properties not (yet) claimed, with the reason (kept current; see DESIGN.md)
 NOT_APPLICABLE = {
 }
